@@ -47,4 +47,7 @@ def get(pid):
     if pid == 'C06':
         from . import include_checks
         return include_checks.check_c06
+    if pid == 'C11':
+        from . import conc_checks
+        return conc_checks.check_c11
     raise SystemExit(f'no check registered for {pid}')
